@@ -156,6 +156,17 @@ class Group:
             log.append({"rule": "R1-closure-underscore", "from": mm.group(0)})
             return "|" + ", ".join(out) + "|"
         text = re.sub(r"\|((?:\s*\w+\s*,)*\s*_\s*(?:,\s*\w+\s*)*)\|", r1, text)
+        # rule R13: the message arguments of panic!/unimplemented!/unreachable! are dropped (payloads are opaque;
+        # reaching the macro stays a proof obligation)
+        while True:
+            m = mask(text)
+            mm = re.search(r"\b(panic|unimplemented|unreachable)!\(\s*[^)\s]", m)
+            if not mm:
+                break
+            p0 = m.index("(", mm.start())
+            p1 = match_close(m, p0)
+            log.append({"rule": "R13-panic-args", "from": text[mm.start():p1 + 1][:120]})
+            text = text[:p0 + 1] + text[p1:]
         for rx, rp, tag in self.global_rewrites:
             new, n = re.subn(rx, rp, text)
             if n:
